@@ -59,7 +59,7 @@ def run(out, tier):
 
 
 def replay(out, path):
-    obj = json.load(open(path))
+    obj = json.load(open(path))["replay"]
     behs = [obj["behaviour"]]
     lines, found = execute(behs, "x01_replay")
     judge(out, behs, lines, found)
